@@ -71,7 +71,7 @@ def _default_summaries(ctx):
 
 def run(ctx):
     for fn in (r1_escape_parse, r2_containment, r3_style_dispatch, r4_collection_continues, r5_variants, r6_directives_checked_at_parse_time,
-               r7_error_constructor_total, r8_line_table_covers_ast_lines, r2b_containment_handler_is_total, r9_lookahead_in_bounds, r10_docstring_locator_indices_in_bounds):
+               r7_error_constructor_total, r8_line_table_covers_ast_lines, r2b_containment_handler_is_total, r9_lookahead_in_bounds, r10_docstring_locator_indices_in_bounds, r11_definite_assignment):
         ctx.rep.rule(fn, ctx)
 
 
@@ -876,6 +876,12 @@ def r10_docstring_locator_indices_in_bounds(ctx):
                        'than source lines, the index leaves the table (IndexError: the module is not collected at all) or wraps around to an unrelated line' %
                        ('it can be negative' if minus and not lo_ok else 'it can exceed the table'), anchor=f.qualname)
     rep.floor('C14.R10', 'line-table subscripts by a candidate derived from the newline count', n_idx, 2)
+
+
+def r11_definite_assignment(ctx):
+    """an UnboundLocalError inside parsing or collection is neither the library's parse error nor contained per docstring (DEFINITE-ASSIGNMENT, see common.definite_assignment)"""
+    from .common import definite_assignment
+    definite_assignment(ctx, 'C14.R11', {'xdoctest.parser', 'xdoctest.core', 'xdoctest.static_analysis', 'xdoctest.dynamic_analysis', 'xdoctest.docstr.docscrape_google', 'xdoctest.exceptions'}, 40)
 
 
 # ---------------------------------------------------------------------------
